@@ -370,7 +370,22 @@ class KernelCheck(object):
         """One concrete point per work item: the engine's observations under a model of a complete path must equal what
         the natively compiled harness prints for the same inputs (guards the IR translation / engine)."""
         v = r.get('validate')
-        if not v or not v['obs']:
+        if not v:
+            return
+        if not v['obs']:
+            # no observations in this harness: compare the assertion outcomes instead (every obligation of the item was
+            # discharged, so the native run on a model of a complete path must not report a failed assertion)
+            if r['obligations'] and all(o['status'] == 'unsat' for o in r['obligations']):
+                try:
+                    rc, lines, err = self._replay(r['entry'], r['args'], v['nondet'], False, r.get('params'))
+                except Exception:  # noqa
+                    return
+                bad = [ln for ln in lines if ln.startswith('ASSERT-FAILED')]
+                if rc == 0 and not bad:
+                    self.validated = getattr(self, 'validated', 0) + 1
+                elif bad:
+                    self.inconclusive.append('%s: native build fails %s on inputs %s although every obligation was discharged' % (
+                        r['name'], bad[0], [(n, x) for (n, x, _) in v['nondet']]))
             return
         try:
             rc, lines, err = self._replay(r['entry'], r['args'], v['nondet'], False, r.get('params'))
